@@ -114,5 +114,6 @@ func (vc *VacuumCursor) Filter(_ int, idxStr string, values ...sqlite.Value) err
 	vc.beforeTime = t
 
 	vc.vacuumErr = s3db.Vacuum(vc.module.sc.ctx, vc.tableName, t)
+	vc.eof = false
 	return nil
 }
